@@ -165,6 +165,9 @@ HARNESSES = {"conservation": h_conservation}
 def plan(tier, seed):
     p = [("conservation", dict(skeleton="T1", n=3, sym_durations=["steps", "request"], dmax_h=2, rmax_h=3)),
          ("conservation", dict(skeleton="T4", n=2, sym_durations=["steps"], dmax_h=2)),
+         # a journey that visits the same step object twice (placement of the second visit: delay of *its* position)
+         ("conservation", dict(skeleton="T4", n=2, sym_durations=["steps"], dmax_h=2, args={"repeat": True})),
+         ("conservation", dict(skeleton="T4", n=2, sym_durations=[], args={"repeat": True}, values={"step1.user_time_spent": 50, "step2.user_time_spent": 45})),
          ("conservation", dict(skeleton="T3", n=2, sym_durations=["request"], rmax_h=2)),
          ("conservation", dict(skeleton="T2", n=2, sym_durations=["steps"], dmax_h=3)),
          ("conservation", dict(skeleton="T4", n=2, sym_durations=[], units={"jobB.ram_needed": "GB", "jobB.data_transferred": "GB"},
